@@ -287,6 +287,9 @@ def match_cases(tier, seed):
              # a wildcard occurring twice, at least once inside a compound sub-term
              ('op', '*', (('op', '+', (w1, b)), w1)), ('op', '^', (('mem', ('op', '+', (w1, K)), 32), w1)), ('op', '+', (('op', '-', (w1,)), ('op', '&', (w1, w2)))),
              ('cond', ('op', '==', (w1, K)), w1, w2), ('op', '-', (('slice', ('op', '+', (w1, w2)), 0, 32) if False else ('op', '<<', (w1, K)), ('op', '>>', (w1, K1)))),
+             # constants where the surrounding node does not fix the width (absolute address, constant condition, slice of a constant)
+             ('mem', K, 32), ('mem', ('op', '+', (K, w1)), 8), ('cond', K, w1, w2), ('cond', ('op', '&', (w1, K)), w2, K1),
+             ('slice', K, 0, 8), ('slice', ('op', '^', (w1, K)), 0, 8), ('op', '+', (('mem', ('op', '+', (a, K)), 32), w1)),
              w1, K, a]
     binds = [a, b, K1, ('int', 2, n), ('op', '+', (a, ('int', 2, n))), ('mem', a, 32), ('op', '-', (b,)),
              ('cond', a, b, ('int', 2, n)), ('slice', ('id', 'z', 64), 0, 32)]
@@ -451,7 +454,67 @@ def mutants(p, e_shape):
                 variants.append(('all-cuts+4', c2))
         for tag, c2 in variants:
             out.append(('cut-changed:' + tag, ('compose', tuple((('id', 'u%d_%d' % (j, c2[j + 1] - c2[j]), c2[j + 1] - c2[j]), c2[j], c2[j + 1]) for j in range(len(c2) - 1)))))
+    # a sub-term whose width the surrounding node does not fix (memory address, condition, slice argument) rebuilt at another
+    # width: identifiers renamed, constants keep their (symbolic) value in the other class - equal numbers, different terms
+    for tag, ms in width_changed(e_shape):
+        out.append(('width-changed:' + tag, ms))
     return out
+
+
+def retype(s, wf, wt):
+    """the shape s (of width wf) rebuilt at width wt, or None where that is not expressible"""
+    k = s[0]
+    if G.width(s) != wf:
+        return None
+    if k == 'id':
+        return ('id', '%s_%d' % (s[1], wt), wt)
+    if k in ('int', 'cint'):
+        return (k, s[1], wt)
+    if k == 'mem':
+        return ('mem', s[1], wt)
+    if k == 'op':
+        if s[1] in ('==', 'parity', '<<', '>>', 'a>>', '<<<', '>>>') and len(s[2]) == 2:
+            a = retype(s[2][0], wf, wt)
+            b = retype(s[2][1], G.width(s[2][1]), wt) if G.width(s[2][1]) == wf else s[2][1]
+            return None if a is None or b is None else ('op', s[1], (a, b))
+        xs = [retype(x, wf, wt) for x in s[2]]
+        return None if any(x is None for x in xs) else ('op', s[1], tuple(xs))
+    if k == 'cond':
+        a, b = retype(s[2], wf, wt), retype(s[3], wf, wt)
+        return None if a is None or b is None else ('cond', s[1], a, b)
+    return None
+
+
+def width_changed(e, path='', acc=None):
+    if acc is None:
+        acc = []
+    k = e[0]
+    def alt(sub, mk, where, need=0):
+        wf = G.width(sub)
+        for wt in (16, 64, 8):
+            if wt == wf or wt < need:
+                continue
+            r = retype(sub, wf, wt)
+            if r is not None and r != sub and G.ints_of(r):
+                acc.append(('%s%s:%d->%d' % (path, where, wf, wt), mk(r)))
+                break
+    if k == 'mem':
+        alt(e[1], lambda r: ('mem', r, e[2]), 'addr')
+    elif k == 'cond':
+        alt(e[1], lambda r: ('cond', r, e[2], e[3]), 'cond')
+    elif k == 'slice':
+        alt(e[1], lambda r: ('slice', r, e[2], e[3]), 'slicearg', need=e[3])
+    # one level down (the node kinds that carry such a position inside an operation / condition arm)
+    if not path:
+        if k == 'op':
+            for i, x in enumerate(e[2]):
+                for tag, r in width_changed(x, 'arg%d.' % i, []):
+                    acc.append((tag, ('op', e[1], e[2][:i] + (r,) + e[2][i + 1:])))
+        elif k == 'cond':
+            for i in (2, 3):
+                for tag, r in width_changed(e[i], 'arm%d.' % i, []):
+                    acc.append((tag, e[:i] + (r,) + e[i + 1:]))
+    return acc
 
 
 def _nb(r):
